@@ -181,7 +181,7 @@ CmpClauses ==
 RunClauses ==
   CmpClauses
   \o (IF Run.op \in {"sort", "report"} THEN <<>> ELSE << <<"X.exact", Run.final.inexact = <<>> >> >>)
-  \o (IF Run.op \in {"sort", "report", "rebuild", "snapshot", "subconfig", "add_dep", "graph"} THEN <<>> ELSE On("C08", C08_H(Cfg, Run)))
+  \o (IF Run.op \in {"sort", "report", "rebuild", "snapshot", "subconfig", "add_dep", "graph", "add_worker_task", "add_team_target", "edit_abs"} THEN <<>> ELSE On("C08", C08_H(Cfg, Run)))
   \o (CASE Run.op = "sort" -> On("C11", C11_F(Cfg, Run)) \o << <<"L2.sort", C11_FConforms(Cfg, Run)>> >>
         [] Run.op = "report" -> On("C19", C19_F(Run))
         [] Run.op = "subconfig" -> On("C20", C20_Config(Run))
